@@ -90,8 +90,14 @@ func c08TypeString(dt arrow.DataType) string {
 		}
 		return "dict-" + t.IndexType.Name() + "-" + t.ValueType.Name()
 	case *arrow.ListType:
+		if !t.ElemField().Nullable { // the derivation's lists have nullable items; anything else is another type
+			return "list-nonnull-items<" + c08TypeString(t.Elem()) + ">"
+		}
 		return "list<" + c08TypeString(t.Elem()) + ">"
 	case *arrow.MapType:
+		if !t.ItemField().Nullable || t.KeyField().Nullable {
+			return "map-odd-nullability<" + c08TypeString(t.KeyType()) + "," + c08TypeString(t.ItemType()) + ">"
+		}
 		return "map<" + c08TypeString(t.KeyType()) + "," + c08TypeString(t.ItemType()) + ">"
 	case *arrow.StructType:
 		return "struct{" + c08FieldsString(t.Fields()) + "}"
